@@ -23,6 +23,34 @@ Definition sf_step (k : fkey) (acc : Z) (x : fev * fout) : Z :=
 Definition since_failed (k : fkey) (tr : list (fev * fout)) : Z :=
   fold_left (sf_step k) tr 0.
 
+(* The reading of the property text: a logical call of sequence [s] on retry
+   processor [p] is ended by "failed" AND by a response of [s] outside the retry
+   conditions ([FSkip s]: no retry processor is reached).  [call_carried] counts
+   in one pass
+     fst: the retries asked for (p, s) since the latest END of a call;
+     snd: the retries asked for (p, s) since its latest "failed" that PRECEDE
+          that end — retries of an ended call which a gateway that forgot the
+          sequence at its end would no longer count ("carried over").
+   This is literally what the harness monitor computes (call / carried). *)
+Definition cc_step (k : fkey) (acc : Z * Z) (x : fev * fout) : Z * Z :=
+  match fst x with
+  | FExec p s =>
+      if fkey_eqb (p, s) k then
+        match snd x with
+        | FRetry => (fst acc + 1, snd acc)
+        | FFailed => (0, 0)
+        | FOther => acc
+        end
+      else acc
+  | FSkip s => if s =? snd k then (0, snd acc + fst acc) else acc
+  end.
+
+Definition call_carried (k : fkey) (tr : list (fev * fout)) : Z * Z :=
+  fold_left (cc_step k) tr (0, 0).
+
+Definition since_end (k : fkey) (tr : list (fev * fout)) : Z := fst (call_carried k tr).
+Definition carried (k : fkey) (tr : list (fev * fout)) : Z := snd (call_carried k tr).
+
 (* ---------------- policy mode ---------------- *)
 
 Definition r_seq (x : presp) : Z := fst (fst (fst x)).
@@ -73,3 +101,23 @@ Definition resp_only (evs : list tev) : list gev := flat_map t_lossless evs.
 (* events of one sequence *)
 Definition g_on (s : Z) (e : gev) : bool :=
   match e with GResp s' _ _ _ => s' =? s | GDrop s' => s' =? s end.
+
+(* number of responses of sequence [s] in a history *)
+Definition g_resp_of (s : Z) (e : gev) : bool :=
+  match e with GResp s' _ _ _ => s' =? s | GDrop _ => false end.
+Definition count_resp (s : Z) (evs : list gev) : Z :=
+  Z.of_nat (length (filter (g_resp_of s) evs)).
+
+(* a continuation in which the call of [s] that is open goes on undisturbed:
+   its responses are later ones (not opening), meet the retry conditions and
+   find what the cache holds; the cache does not lose the entry of [s].
+   Events of other sequences are arbitrary. *)
+Definition calm (c : pcfg) (s : Z) (e : gev) : bool :=
+  match e with
+  | GResp s' n status vis =>
+      if s' =? s then negb n && vis && in_ranges (pRanges c) status else true
+  | GDrop s' => negb (s' =? s)
+  end.
+
+(* a continuation without a response opening [s] *)
+Definition no_open (s : Z) (e : gev) : bool := negb (g_opens s e).
